@@ -18,7 +18,10 @@ META = {
             "a virtual clock; Trace_Resolution requires every recorded query (server, tcp, timeout, question), sleep "
             "and ending (class, Answer rrset/canonical name/expiration, cache contents) to be a step of the "
             "specification, and the async log to equal the sync log. Trace_Chaining does the same for "
-            "resolve_chaining on the response universe.",
+            "resolve_chaining on the response universe. NameserverGlue.tla specifies what a nameserver object must "
+            "hand to its transport; the real Do53/DoH/DoT/DoQ nameserver classes are run (query and async_query) over "
+            "recording transport stubs and validated by Trace_NameserverGlue, and resolver scripts are also run with "
+            "real Do53Nameserver objects over those stubs.",
     "note": "Exhaustive only inside the Gen/MC constants (<=3 servers, <=3 candidates, <=3-5 queries per resolution, small "
             "outcome alphabets); longer sequences and the full alphabet are seeded TLC simulations. The network is replaced "
             "at the dns.nameserver.Nameserver interface, time by vlib/vclock.py (1/16 s ticks); real sockets, rotate=True, "
@@ -43,6 +46,15 @@ CONSTANTS
   IdleAdvances = {idle}
   Outcomes <- {outcomes}
   Advances <- {advances}
+INVARIANT Emit
+CHECK_DEADLOCK FALSE
+"""
+
+GLUE_GEN_CFG = """INIT Init
+NEXT Next
+CONSTANTS
+  Calls <- MCCalls
+  Replies <- MCReplies
 INVARIANT Emit
 CHECK_DEADLOCK FALSE
 """
@@ -78,6 +90,11 @@ def nontrivial(s):
 
 
 def classify(tr, line, clause):
+    if "call" in tr:   # nameserver glue case
+        ev = tr.get("ev", [])
+        e = ev[line - 1] if line and 0 < line <= len(ev) else {}
+        c = tr["call"]
+        return "%s:glue:%s:%s:maxsize=%s:reply=%s" % (clause, c.get("kind"), e.get("mode", "?"), c.get("maxsize"), tr.get("reply"))
     ev = tr.get("ev", [])
     e = ev[line - 1] if line and 0 < line <= len(ev) else {}
     cfg = tr.get("cfg", {})
@@ -109,7 +126,11 @@ def run(ctx):
                         "the environment sets the clock back at most MaxBack times per resolution (otherwise no resolver terminates)"]
     if ctx.replay_case:
         case = ctx.replay_case["case"]
-        if case.get("kind") == "chain":
+        if case.get("kind") == "glue":
+            tr = c16_resolver.glue_job((case["script"], "replay"))
+            rejects = ctx.validate("Trace_NameserverGlue", "Trace_NameserverGlue.cfg", [tr])
+            report(ctx, rejects, {"replay": case["script"]}, "glue")
+        elif case.get("kind") == "chain":
             tr = c16_resolver.chain_job((case["script"], "replay"))
             rejects = ctx.validate("Trace_Chaining", "Trace_Chaining.cfg", [tr])
             report(ctx, rejects, {"replay": case["script"]}, "chain")
@@ -131,6 +152,8 @@ def run(ctx):
               pool.submit(ctx.model, "MC_Resolution", "MC_Resolution_live.cfg" if quick else "MC_Resolution_live2.cfg", workers=1)]
 
     # ---------------------------------------------------------------- Chaining on the code
+    models.append(pool.submit(ctx.model, "MC_NameserverGlue", "MC_NameserverGlue.cfg", workers=1))
+    glue_gen = pool.submit(ctx.generate, "MC_NameserverGlue", ctx.cfg("gglue.cfg", GLUE_GEN_CFG))
     gens = []
 
     def gen(*a, **kw):
@@ -146,6 +169,17 @@ def run(ctx):
     for f in models:
         f.result()
     pool.shutdown()
+    # ---------------------------------------------------------------- the nameserver glue on the code
+    gcases = glue_gen.result()
+    gjobs = [(c, "n%d" % i) for i, c in enumerate(gcases)]
+    gtraces = ctx.pmap(c16_resolver.glue_job, gjobs)
+    ctx.extra["nameserver_glue_cases"] = len(gcases)
+    rejects = ctx.validate("Trace_NameserverGlue", "Trace_NameserverGlue.cfg", gtraces, shards=2)
+    report(ctx, rejects, {j[1]: j[0] for j in gjobs}, "glue")
+    for c in gcases:
+        ctx.note_distinct("glue:" + script_key(c))
+    ctx.sample({"nameserver_glue": gtraces[len(gtraces) // 3]})
+
     cjobs = [(c, "c%d" % i) for i, c in enumerate(cases)]
     ctraces = ctx.pmap(c16_resolver.chain_job, cjobs)
     ctx.extra["chaining_cases"] = len(cases)
@@ -209,6 +243,10 @@ def submit_generators(ctx, quick, gen):
     #     names x classes {IN, CH} x types {A, TXT}; answer / empty answer / NXDOMAIN; entries alive or expired
     gen("Gen_Resolution", gen_cfg(ctx, "g8.cfg", configs="GCfgClass", requests="GReqClass", outcomes="GOutClass",
                                   advances="GAdvZero", maxres=2, maxq=1, idle="{0, 96}"))
+    # G9: end to end with REAL dns.nameserver.Do53Nameserver objects over stubbed dns.query / dns.asyncquery
+    #     transports (a reply with TC raises Truncated only if the glue asked UDP to): all outcome sequences <= 3
+    gen("Gen_Resolution", gen_cfg(ctx, "g9.cfg", configs="GCfgGlue", requests="GReqAbs", outcomes="GOutGlue",
+                                  advances="GAdvZero", maxq=3 if quick else 4))
     # G4: one and three servers, every way of failing
     gen("Gen_Resolution", gen_cfg(ctx, "g4.cfg", configs="GCfgThree" if quick else "GCfgOneThree",
                                                       requests="GReqAbs", outcomes="GOutFail10" if quick else "GOutFailing",
@@ -248,6 +286,8 @@ def report(ctx, rejects, scripts, kind):
         sig = classify(tr, line, clause)
         e = tr["ev"][line - 1] if line and 0 < line <= len(tr["ev"]) else {}
         base = tr["tid"].rsplit(".", 1)[0] if kind == "resolution" else tr["tid"]
+        if kind == "glue":
+            e = {k: v for k, v in e.items() if k != "args"} if clause == "SyncAsyncIdentical" else e
         script = scripts.get(base, scripts.get("replay"))
         small = {k: v for k, v in tr.items() if k != "peer"}
         ctx.violation(clause, sig, "%s %s event %s: %s" % (kind, tr.get("mode", ""), line, json.dumps(e)[:300]),
